@@ -62,6 +62,8 @@ impl RecoveryThread {
 
         let thread = spawn(move || loop {
             for panicking_thread in &rx {
+                #[cfg(humphrey_verif)]
+                crate::verif::point("Rec_Wake", panicking_thread as i64, 0);
                 let mut threads = threads.lock().unwrap();
                 #[cfg(humphrey_verif)]
                 crate::verif::point("Rec_Recv", panicking_thread as i64, 0);
